@@ -1470,6 +1470,9 @@ func main() {
 			g.histMixed(mixOpts{kinds: []string{"kv", "list", "set", "zset"}, pMulti: 90, pInTxRead: 60})
 		case "fail": // C12: transactions that end without commit
 			g.histMixed(mixOpts{kinds: []string{"kv", "list", "set", "zset"}, pMulti: 60, pNoCommit: 45, pROMut: 60, faults: true})
+		case "failmerge": // C12 across Merge: what a failed transaction left in the files must stay without effect when Merge rewrites them
+			g.noSMove = true
+			g.histMixed(mixOpts{kinds: []string{"kv", "set", "zset"}, pMulti: 70, pNoCommit: 40, pROMut: 30, pMerge: 15, faults: true})
 		case "failkv":
 			g.histMixed(mixOpts{kinds: []string{"kv"}, pMulti: 60, pNoCommit: 45, pROMut: 60, faults: true})
 		case "merge": // C15
